@@ -20,10 +20,16 @@ func (f *syntaxAggregateFunction) retrieve(
 	}
 
 	result := values.result
+	isPooledResult := true
 	if !f.param.isValueGroup() {
 		if arrayParam, ok := values.result[0].([]interface{}); ok {
 			result = arrayParam
+			isPooledResult = false
 		}
+	}
+	if isPooledResult {
+		// The function may keep or return its argument: it must not alias the pooled buffer.
+		result = append([]interface{}(nil), result...)
 	}
 
 	filteredValue, err := f.function(result)
